@@ -1,6 +1,7 @@
 import Oracle.Sexp
 import Oracle.Slice
 import Oracle.Lib
+import Oracle.Equal
 open Oracle
 
 /-- a line is `(<stream> payload...)`; the answer is one S-expression -/
@@ -10,6 +11,7 @@ def handle (line : String) : String :=
     match stream with
     | "echo" => toString (Sx.list payload)
     | "slice.hist" => toString (Oracle.Slice.handle payload)
+    | "eq.pair" => toString (Oracle.Equal.handle payload)
     | "lib.dict" => toString (Oracle.Lib.dictStream payload)
     | "lib.str" => toString (Oracle.Lib.strCall payload)
     | "lib.buf" => toString (Oracle.Lib.bufStream payload)
